@@ -22,9 +22,13 @@ META = dict(
                "entry whose keys are present but both None makes ScheduledTask raise and the whole listing fail - modelled, "
                "excluded from the statement, reported as an observation); the labels of a listed schedule are the entry's "
                "labels updated with the task's (the task wins) - not part of the statement, modelled as the code does it. "
+               "A task is the source's broker's own iff it was declared on that broker object; a task declared through a "
+               "shared broker (async_shared_broker.task) is foreign whatever default_broker() says - sends of shared tasks "
+               "go through the default broker, their schedule labels do not become that broker's. "
                "Broker middlewares are not in the model (C10). prepare_label is a Section variable (C09).",
-    rule="case = on_ready scenario (payload, callback kinds, outcomes) or label-source history (global+local registries, "
-         "listing/firing operations); non-trivial iff >= 2 entries share a task or a time, or a callback cancels / raises / "
+    rule="case = on_ready scenario (payload, callback kinds, outcomes) or label-source history (global+local registries "
+         "with foreign tasks of another broker object / of a shared broker before and after default_broker() / hidden in "
+         "another broker's local registry, listing/firing operations); non-trivial iff >= 2 entries share a task or a time, or a callback cancels / raises / "
          "is not a plain sync def (async def, or a def returning a Future / Task / __await__ object / gather / shield / "
          "executor future / generator-based coroutine); distinct by canonical JSON of the case",
     trusted_base=["model: coq/theories/SchedSource.v (hand-written transcription of scheduler.py, kicker.py message preparation, "
@@ -197,8 +201,8 @@ def label_oracle(c, obs, rep):
     if sorted(map(json.dumps, prev)) != sorted(map(json.dumps, declared)):
         return "initial registry view differs from the declaration", 0
     for k, o in enumerate(obs[1:], 1):
-        if o["op"] == "skip":
-            continue
+        if o["op"] in ("skip", "default"):
+            continue                 # default = <shared broker>.default_broker(...) was called: nothing to demand of it
         cur = [[n, [u for u, _ in ents]] for n, ents in o["view"]]
         if o["op"] == "list":
             ents = [(n, spec[u]) for n, us in prev if own[n] for u in us if "cron" in spec[u] or "time" in spec[u]]
@@ -379,7 +383,96 @@ def gen_label(r, exhaustive_ops=None):
     c = dict(type="label", globals=globs, locals=locs, ops=exhaustive_ops or ops)
     if r.random() < .2:
         c["cb_style"] = r.choice(LABEL_CB_STYLES)     # a wrapping source that defers the label source's own callbacks
+    if r.random() < .25 and not exhaustive_ops:
+        deployment(r, c, task)
     return c
+
+
+def deployment(r, c, task):
+    """Foreign tasks of every kind a deployment has (about a quarter of the label histories): tasks declared through
+    async_shared_broker.task(...) / a second AsyncSharedBroker (they sit in the global registry every broker sees),
+    default_broker(b | other | None) called before the declarations, after them, or between listings and firings; tasks
+    that live only in another broker's local registry (hidden from b), possibly under a name b also uses; one Python
+    function decorated on a foreign broker and registered on b as well; the decorator form of a declaration; schedules
+    built by hand for a declared entry of any visible task, own or foreign, fired through this source."""
+    used = {t["name"] for t in c["globals"]}
+    for t in c["globals"]:
+        if not t["own"] and r.random() < .6:
+            t["decl"] = r.choice(["shared", "shared", "shared2"])
+    for n in r.sample([x for x in ["t0", "t1", "t2", "t3", "g0", "g1", "lib:s0", "lib:s1"] if x not in used], r.choice([0, 1, 1, 2])):
+        t = task(n, False)
+        t["decl"] = r.choice(["shared", "shared", "shared2"])
+        c["globals"].insert(r.randint(0, len(c["globals"])), t)
+    whos = ["b", "b", "b", "other", "none"]
+    for k in ("default_before", "default_after"):
+        if r.random() < .45:
+            c[k] = [[r.choice(["shared", "shared", "shared2"]), r.choice(whos)] for _ in range(r.choice([1, 1, 2]))]
+    ops = c["ops"]
+    for _ in range(r.choice([0, 0, 1, 1, 2])):
+        ops.insert(r.randint(0, len(ops) - 1), ["default", r.choice(["shared", "shared", "shared2"]), r.choice(whos)])
+    for _ in range(r.choice([0, 1, 2])):
+        ops.insert(r.randint(1, len(ops)), ["fire_decl", r.randint(0, 5), r.randint(0, 5)])
+    if ops[-1][0] != "list":
+        ops.append(["list"])
+    if r.random() < .4:
+        names = [t["name"] for t in c["locals"]] + ["h0"]
+        c["hidden"] = [task(n, False) for n in r.sample(names, r.randint(1, min(2, len(names))))]
+    if r.random() < .4:
+        pool = c["globals"] + c["locals"] + c.get("hidden", [])
+        for t in r.sample(pool, min(len(pool), r.randint(2, 3))):
+            t["fn"] = 0
+    for t in c["globals"] + c["locals"]:
+        if r.random() < .3:
+            t["via"] = "task"
+
+
+def own_of(c):
+    own = {t["name"]: t["own"] for t in c["globals"]}
+    own.update({t["name"]: True for t in c["locals"]})
+    return own
+
+
+def count_deployment(rep, c, obs):
+    """evidence distribution of the foreign-task kinds (see deployment)"""
+    shadowed = {t["name"] for t in c["locals"]}
+    for t in c["globals"]:
+        kind = t.get("decl", "plain")
+        if t["own"]:
+            continue
+        rep.count("label:foreign task decl=%s%s" % (kind, ", shadowed by a local task" if t["name"] in shadowed else ""))
+        if kind != "plain" and any("cron" in e or "time" in e for e in (t["schedule"] or [])):
+            rep.count("label:shared-broker task with cron/time entries")
+    if not any(t.get("decl", "plain") != "plain" for t in c["globals"]) and not c.get("hidden"):
+        return
+    # which default broker each shared broker had at every listing / firing
+    cur = {"shared": "none", "shared2": "none"}
+    for d in c.get("default_before", []) + c.get("default_after", []):
+        cur[d[0]] = d[1]
+    for k in ("default_before", "default_after"):
+        for d in c.get(k, []):
+            rep.count("label:%s %s.default_broker(%s)" % (k, d[0], d[1]))
+    kinds = {t.get("decl") for t in c["globals"] if t.get("decl", "plain") != "plain" and t["name"] not in shadowed
+             and any("cron" in e or "time" in e for e in (t["schedule"] or []))}
+    real = [x for x in c["ops"]]
+    i = 0
+    for x in obs[1:]:
+        op = real[i]
+        i += 1
+        if op[0] == "default":
+            cur[op[1]] = op[2]
+            rep.count("label:default_broker(%s) between operations" % op[2])
+        elif x["op"] in ("list", "fire"):
+            for kd in kinds:
+                rep.count("label:%s with visible %s-broker entries while its default broker = %s" % (x["op"], kd, cur[kd]))
+    if c.get("hidden"):
+        rep.count("label:tasks in another broker's local registry%s" %
+                  (", same name as an own task" if {t["name"] for t in c["hidden"]} & shadowed else ""))
+    if any("fn" in t for t in c["globals"] + c["locals"] + c.get("hidden", [])):
+        owners = {("own" if t in c["locals"] or t["own"] else t.get("decl", "other")) for t in
+                  c["globals"] + c["locals"] + c.get("hidden", []) if "fn" in t}
+        rep.count("label:one function declared on %s" % "+".join(sorted(owners)))
+    if any(t.get("via") == "task" for t in c["globals"] + c["locals"]):
+        rep.count("label:declared with the decorator form")
 
 
 def nontrivial(c):
@@ -423,7 +516,7 @@ def c_task(t, T):
 
 def c_view(v, T):
     return C.clist(["(%s, %s)" % (C.cn(T.name(n)), C.clist(
-        ["(%s, %s)" % (C.cn(u), "None" if l is None else "(Some %s)" % c_labels(l, T)) for u, l in ents])) for n, ents in v])
+        ["(%s, %s)" % (C.cn(u), "(@None labels)" if l is None else "(Some %s)" % c_labels(l, T)) for u, l in ents])) for n, ents in v])
 
 
 def lit_label(c, o):
@@ -482,8 +575,12 @@ def explore(ctx, rep, cases, label):
                 rep.fail("observation not encodable", c, observed=str(e))
         else:
             rep.count("label:cb_style=%s" % c.get("cb_style", "sync"))
+            count_deployment(rep, c, o["obs"])
             for x in o["obs"]:
                 rep.count("label:op=" + x["op"])
+                if x.get("by_hand"):
+                    rep.count("label:fired a schedule built by hand for a%s task's entry" %
+                              ("n own" if own_of(c).get(x["sched"]["task"]) else " foreign"))
                 if x["op"] == "list":
                     rep.count("label:listing=%s" % ("raised" if x["result"] is None else "empty" if not x["result"] else "some"))
             bad, k = label_oracle(c, o["obs"], rep)
